@@ -58,8 +58,13 @@ func parseSMTValue(v string) (*big.Int, bool) {
 
 // getValues asks the solver that found the counterexample for the values of terms.
 // modelTiers: progressively weaker shape constraints on slice parameters, smallest models first.
-func modelTiers(vc *VC) [][]string {
+func modelTiers(vc *VC, extra [][3]string) [][]string {
 	var offs, lens, caps []string
+	for _, x := range extra {
+		offs = append(offs, x[0])
+		lens = append(lens, x[1])
+		caps = append(caps, x[2])
+	}
 	for name, sym := range vc.inputs {
 		switch {
 		case strings.HasSuffix(name, ".off"):
@@ -194,6 +199,7 @@ type replayGen struct {
 	mv      modelVals
 	entryH  func(name, sort string) string
 	fail    string
+	heapSlices [][3]string // off, len, cap terms of slices reached through pointer parameters
 }
 
 func (g *replayGen) qual(p *types.Package) string {
@@ -249,6 +255,9 @@ func (g *replayGen) collect(v Val, depth int) {
 		g.want(v.Sl[1])
 		g.want(v.Sl[2])
 		g.want(v.Sl[3])
+		if depth > 0 {
+			g.heapSlices = append(g.heapSlices, [3]string{v.Sl[1], v.Sl[2], v.Sl[3]})
+		}
 		et := v.T.Underlying().(*types.Slice).Elem()
 		for _, lf := range leavesOf(et) {
 			if lf.bad {
@@ -256,7 +265,7 @@ func (g *replayGen) collect(v Val, depth int) {
 			}
 			h := g.entryH(elemHeap(et, lf.path), arraySort(sortRef, arraySort(sortIdx, lf.sort)))
 			for i := int64(0); i < maxReplayElems; i++ {
-				g.want(sel(sel(h, v.Sl[0]), bvAdd(v.Sl[1], i64(i))))
+				g.want(sel(sel(h, v.Sl[0]), elemIdx(v.Sl[1], i64(i))))
 			}
 		}
 	case KStruct:
@@ -265,7 +274,34 @@ func (g *replayGen) collect(v Val, depth int) {
 		}
 	case KIface:
 		g.want(v.If[0])
+	case KPtr:
+		if v.L != nil && v.L.Kind == locObj && len(v.L.Path) == 0 && depth < 2 {
+			g.want(v.L.Ref)
+			if pv, ok := g.pointee(v); ok {
+				g.collect(pv, depth+1)
+			}
+		}
 	}
+}
+
+// pointee: the struct a pointer parameter points to, read from the entry heap.
+func (g *replayGen) pointee(v Val) (Val, bool) {
+	stt, ok := v.L.Base.Underlying().(*types.Struct)
+	if !ok {
+		return Val{}, false
+	}
+	out := Val{K: KStruct, T: v.L.Base}
+	for i := 0; i < stt.NumFields(); i++ {
+		ft := stt.Field(i).Type()
+		ls := leavesOf(ft)
+		terms := make([]string, len(ls))
+		for j, lf := range ls {
+			h := g.entryH(fieldHeap(v.L.Base, "."+stt.Field(i).Name()+lf.path), arraySort(sortRef, lf.sort))
+			terms[j] = sel(h, v.L.Ref)
+		}
+		out.F = append(out.F, unflatten(ft, terms))
+	}
+	return out, true
 }
 
 func (g *replayGen) goValue(v Val) string {
@@ -347,7 +383,7 @@ func (g *replayGen) goValue(v Val) string {
 			n = maxReplayElems
 		}
 		for i := int64(0); i < n; i++ {
-			x, ok := g.val(sel(sel(h, v.Sl[0]), bvAdd(v.Sl[1], i64(i))))
+			x, ok := g.val(sel(sel(h, v.Sl[0]), elemIdx(v.Sl[1], i64(i))))
 			if !ok {
 				x = big.NewInt(0)
 			}
@@ -370,6 +406,33 @@ func (g *replayGen) goValue(v Val) string {
 		if tag == nil || tag.Sign() == 0 {
 			return "nil"
 		}
+	case KPtr:
+		if v.L != nil && v.L.Kind == locObj && len(v.L.Path) == 0 {
+			ref, _ := g.val(v.L.Ref)
+			if ref == nil || ref.Sign() == 0 {
+				return "nil"
+			}
+			if pv, ok := g.pointee(v); ok {
+				stt := v.L.Base.Underlying().(*types.Struct)
+				var xs []string
+				for i, f := range pv.F {
+					switch f.K {
+					case KScalar, KSlice, KArray:
+						saved := g.fail
+						src := g.goValue(f)
+						if g.fail != saved {
+							// field type without a generic construction: leave it zero
+							g.fail = saved
+							continue
+						}
+						xs = append(xs, fmt.Sprintf("%s: %s", stt.Field(i).Name(), src))
+					}
+				}
+				return fmt.Sprintf("&%s{%s}", g.typeStr(v.L.Base), strings.Join(xs, ", "))
+			}
+		}
+	case KRef:
+		return "nil"
 	}
 	g.fail = "parameter of type " + t.String() + " has no generic replay construction"
 	return "nil"
@@ -423,7 +486,7 @@ func replayOnRealCode(e *Engine, vc *VC, o *Obligation, dir string) map[string]i
 	}
 	var lastRes map[string]interface{}
 	attempts := 0
-	for _, tier := range modelTiers(vc) {
+	for _, tier := range modelTiers(vc, g.heapSlices) {
 		mv, raw := getValuesWith(vc, o, terms, dir, tier)
 		if len(mv) == 0 {
 			if lastRes == nil {
@@ -488,6 +551,20 @@ func (g *replayGen) runReplay(params []Val, dir string, attempt int) map[string]
 	for i, p := range fn.Params {
 		if _, ok := p.Type().Underlying().(*types.Slice); ok {
 			fmt.Fprintf(&body, "\told_%s := append(%s(nil), %s...)\n\t_ = old_%s\n", argNames[i], g.typeStr(p.Type()), argNames[i], argNames[i])
+		} else if pt, ok := p.Type().Underlying().(*types.Pointer); ok && isStructType(pt.Elem()) {
+			// deep enough copy: the struct and its slice fields
+			stt := pt.Elem().Underlying().(*types.Struct)
+			fmt.Fprintf(&body, "\told_%s := new(%s)\n\t_ = old_%s\n\tif %s != nil {\n", argNames[i], g.typeStr(pt.Elem()), argNames[i], argNames[i])
+			for k := 0; k < stt.NumFields(); k++ {
+				f := stt.Field(k)
+				switch f.Type().Underlying().(type) {
+				case *types.Slice:
+					fmt.Fprintf(&body, "\t\told_%s.%s = append(%s(nil), %s.%s...)\n", argNames[i], f.Name(), g.typeStr(f.Type()), argNames[i], f.Name())
+				case *types.Basic:
+					fmt.Fprintf(&body, "\t\told_%s.%s = %s.%s\n", argNames[i], f.Name(), argNames[i], f.Name())
+				}
+			}
+			body.WriteString("\t}\n")
 		} else {
 			fmt.Fprintf(&body, "\told_%s := %s\n\t_ = old_%s\n", argNames[i], argNames[i], argNames[i])
 		}
@@ -911,4 +988,9 @@ func (c *specCompiler) call(x *SExpr, old bool) (string, error) {
 		return r + "." + x.Name[strings.LastIndexByte(x.Name, '.')+1:] + "(" + strings.Join(a, ", ") + ")", nil
 	}
 	return "", fmt.Errorf("spec function %s is not executable", x.Name)
+}
+
+func isStructType(t types.Type) bool {
+	_, ok := t.Underlying().(*types.Struct)
+	return ok
 }
